@@ -56,6 +56,9 @@ func (c13) Gen(seed uint64, tier string) *Scenario {
 	if r.Bool(0.2) {
 		sc.Cancels = []CancelSpec{{Proc: 0, AtYield: 1 + r.Intn(400)}}
 	}
+	// the simulated allocator serialises its callers through a mutex, which the race
+	// detector would take for synchronisation between workers: use csvq's own sync.Pool
+	sc.Knobs.Pool = "real"
 	return sc
 }
 
